@@ -15,7 +15,7 @@ import os, re, json
 from vlib import core
 
 PID = "C06"
-KINDS = ["text", "rand", "mix", "rle", "zero", "longrep", "records", "tailmatch", "straddle", "blockdup", "longlit", "sparse"]
+KINDS = ["text", "rand", "mix", "rle", "zero", "longrep", "records", "tailmatch", "straddle", "blockdup", "longlit", "sparse", "tworegime"]
 CAPIS = ["compress2", "compressCCtx", "usingDict", "stream", "bufferlessEnd", "bufferlessEnd0", "stableOut", "sequences", "skippable", "mt"]
 DAPIS = ["decompress", "dctx", "stream", "stableOut", "usingDict"]
 
@@ -59,6 +59,9 @@ def gen_script(rng, tier):
     for api in ("stableOut", "compress2"):
         L.append("CSWEEP %s %s %d %d 4 100 %d 201 1 101 17 130 %d" % (api, rng.choice(["sparse", "text", "mix"]), rng.choice([20000, 60000]), rng.randint(1, 9999), rng.choice([19, 13, 5]), rng.choice([1340, 2000, 5000])))
     L.append("CSWEEP sequences text 1 %d 1 100 3" % rng.randint(1, 9999))
+    # directed: a block that the post-splitter really splits (two regimes inside one block), short one-shot destinations
+    L.append("CSWEEP %s tworegime %d %d 2 100 %d 1010 1" % (rng.choice(["compress2", "compressCCtx"]) if False else "compress2", rng.choice([100000, 131072, 200000]), rng.randint(1, 9999), rng.choice([1, 3, 5])))
+    L.append("CSWEEP compress2 tworegime %d %d 1 100 %d" % (rng.choice([100000, 131072]), rng.randint(1, 9999), rng.choice([16, 17])))
     for _ in range(10 if tier == "quick" else 24):
         api = rng.choice(DAPIS)
         n = rng.choice([0, 1, 100, 1023, 1024, 5000, 131071, 131072, 131073, 200000, 400000])
